@@ -31,6 +31,22 @@ def orderedUnion (existing adds : List String) : List String :=
 def orderedDiff (existing removes : List String) : List String :=
   existing.filter fun u => !removes.contains u
 
+/-- the list as it stands in the document (`doc["alsoKnownAs"].([]interface{})`; anything else: empty) -/
+def rawList : Option Json → List Json
+  | some (.arr xs) => xs
+  | _ => []
+
+/-- `applyAddAlsoKnownAs` since D50: the list as it is — entries of another JSON type included —
+    then the new URIs that are not among its string entries -/
+def akaUnion (raw : List Json) (adds : List String) : List Json :=
+  raw ++ ((adds.filter fun u => !(raw.filterMap Json.str?).contains u).map .str)
+
+/-- `applyRemoveAlsoKnownAs` since D50: only string entries are compared with the URIs to remove -/
+def akaDiff (raw : List Json) (removes : List String) : List Json :=
+  raw.filter fun e => match e.str? with
+    | some s => !removes.contains s
+    | none => true
+
 def members : Json → List (String × Json)
   | .obj kvs => kvs
   | _ => []
@@ -77,9 +93,9 @@ def applyPatch (doc : Json) (p : Json) : CR :=
     else if action = "remove-services" then
       .ok (setDoc doc "service" (listOrNull (removeByIds (objectEntries (doc.get? "service")) (stringArray (some value)))))
     else if action = "add-also-known-as" then
-      .ok (setDoc doc "alsoKnownAs" (listOrNull ((orderedUnion (stringArray (doc.get? "alsoKnownAs")) (stringArray (some value))).map .str)))
+      .ok (setDoc doc "alsoKnownAs" (listOrNull (akaUnion (rawList (doc.get? "alsoKnownAs")) (stringArray (some value)))))
     else if action = "remove-also-known-as" then
-      .ok (setDoc doc "alsoKnownAs" (listOrNull ((orderedDiff (stringArray (doc.get? "alsoKnownAs")) (stringArray (some value))).map .str)))
+      .ok (setDoc doc "alsoKnownAs" (listOrNull (akaDiff (rawList (doc.get? "alsoKnownAs")) (stringArray (some value)))))
     else .err
   | _, _ => .err
 
